@@ -174,7 +174,16 @@ class P:
 
         def ok(c, o):
             return o.startswith(("ok", "skip"))
-        return [{"name": "blank-terminated-values-in-every-position", "harness": "alias", "driver": None, "cases": fixed, "impl_ok": ok,
+        # the character stream under substitution: reads, unreads and substitutions of the real lexer replayed on the model
+        # (Lex/AliasStream.v); folded sources of the generated and fixed cases, each with its table
+        stream = []
+        for c in fixed + cases[: (1500 if tier == "quick" else 30000)]:
+            f_ = c.split("\t")
+            stream.append("%s\t%s" % (f_[0], f_[1]))
+        return [{"name": "alias-stream-model", "harness": "astream", "driver": "astream", "cases": stream, "compare": lambda c, i, m: True,
+                 "impl_ok": lambda c, o: o.startswith("ok "),
+                 "nontrivial": lambda c: True, "distribution": {"cases": len(stream)}},
+                {"name": "blank-terminated-values-in-every-position", "harness": "alias", "driver": None, "cases": fixed, "impl_ok": ok,
                  "nontrivial": lambda c: True, "distribution": {"cases": len(fixed)}},
                 {"name": "folded-vs-unfolded", "harness": "alias", "driver": None, "cases": cases, "impl_ok": ok,
                  "nontrivial": lambda c: c.split("\t")[0] != c.split("\t")[2],
@@ -182,6 +191,8 @@ class P:
 
     def describe(self, part, case):
         f = case.split("\t")
+        if len(f) == 2:
+            return "character stream of %r with aliases %s" % (unhx(f[0]).decode(), {unhx(k).decode(): unhx(v).decode() for k, v in (kv.split("=") for kv in f[1].split(",") if kv)})
         return "folded %r vs unfolded %r" % (unhx(f[0]).decode(), unhx(f[2]).decode())
 
     def classify(self, part, case, impl, model, judge, findings):
@@ -189,6 +200,15 @@ class P:
 
     def replay(self, payload, C):
         c = payload["case"]
+        if payload.get("part") == "alias-stream-model":
+            i = C.run_harness("astream", [c])[0]
+            m, j = C.run_driver("astream", [c], [i])[0]
+            print("case :", self.describe("alias-stream-model", c), "\nimpl :", i[:600], "\njudge:", j)
+            if j.startswith("bad") or not i.startswith("ok "):
+                print("VIOLATION property=C17 replay=(replayed)")
+                return 1
+            print("replay: property holds on this case now")
+            return 0
         o = C.run_harness("alias", [c])[0]
         print("case :", self.describe(None, c))
         print("impl :", o[:600])
